@@ -19,6 +19,7 @@ void c12_inst(RootMeshNode<Mesh_>& node, Mesh_& mesh, MeshPart<Mesh_>& part, con
 {
   node.extract_patch(ranks, g, 0);
   node.extract_patch(std::vector<Index>(), true, true, true);
+  node.refine_unique();
   PatchHaloFactory<Mesh_> hf(g, mesh, part);
   hf.build(Index(0));
   hf.make_unique();
@@ -42,6 +43,9 @@ void c12_inst(RootMeshNode<Mesh_>& node, Mesh_& mesh, MeshPart<Mesh_>& part, con
 
 typedef ConformalMesh<Shape::Hypercube<2>, 2, double> C12MeshQ2;
 template void c12_inst<C12MeshQ2>(RootMeshNode<C12MeshQ2>&, C12MeshQ2&, MeshPart<C12MeshQ2>&, const Adjacency::Graph&, std::vector<int>&, const Dist::Comm&);
+// joint refinement of a 3D root node (halo / patch mesh parts): dimension dependent code paths differ from 2D
+typedef ConformalMesh<Shape::Hypercube<3>, 3, double> C12MeshH3;
+template std::unique_ptr<RootMeshNode<C12MeshH3>> RootMeshNode<C12MeshH3>::refine_unique(AdaptMode) const;
 #ifdef C12_THOROUGH
 typedef ConformalMesh<Shape::Simplex<3>, 3, double> C12MeshS3;
 typedef ConformalMesh<Shape::Hypercube<3>, 3, double> C12MeshQ3;
